@@ -209,6 +209,8 @@ def explore(world, origin, hist, depth_left, monitors, stats, split, deadline):
   for (label, bundle) in alpha:
     if deadline and time.time() > deadline:
       stats.extra['deadline_hit'] = stats.extra.get('deadline_hit', 0) + 1
+      # depth (number of bundles) of the histories that were skipped here
+      stats.extra.setdefault('deadline_depths', []).append(len(hist) + 1)
       break
     ok = leaf_check(world, origin, hist, label, bundle, monitors, stats,
                     doc_log=(doc, log) if first else None)
@@ -329,7 +331,9 @@ def fill_report(report, total, worlds, depth, origins, rule):
       'distinct_nontrivial': len(total.states),
       'nontrivial_transitions': total.changed,
       'distinct_outcomes': len(total.outcomes),
-      'max_depth_completed': depth if not total.extra.get('deadline_hit') else None,
+      # with a deadline hit: every history shorter than the shallowest skipped one was explored
+      'max_depth_completed': (depth if not total.extra.get('deadline_hit')
+                              else min(total.extra.get('deadline_depths') or [1]) - 1),
       'depth': depth,
       'origins': list(origins),
       'worlds': [w.name for w in worlds],
@@ -340,9 +344,12 @@ def fill_report(report, total, worlds, depth, origins, rule):
   })
   if total.extra.get('deadline_hit'):
     report.caps.append('deadline hit in %d subtree(s): exploration below the stated depth is '
-                       'incomplete' % total.extra['deadline_hit'])
+                       'incomplete; all histories of at most %d bundle(s) were explored (per-depth '
+                       'counts in histories_by_depth)' % (
+                           total.extra['deadline_hit'],
+                           min(total.extra.get('deadline_depths') or [1]) - 1))
   for k, v in total.extra.items():
-    if k not in ('alphabet_sizes', 'deadline_hit'):
+    if k not in ('alphabet_sizes', 'deadline_hit', 'deadline_depths'):
       report.coverage[k] = v
   if total.errors:
     report.coverage['harness_errors'] = total.errors[:5]
